@@ -796,9 +796,7 @@ def abiver_pipeline(tier, replay):
         raise ToolError("AbiVer: TLC reports a violation in the specification itself (see %s)" % r["out"])
     if vlib.printed_json(r["out"], recs) == 0:
         raise ToolError("AbiVer produced no behaviours")
-    p = subprocess_run([sys.executable, os.path.join(vlib.ROOT, "gen", "gen_abi.py"), os.path.join(HARNESS, "genabi"), recs])
-    log("[gen] abi %s" % p)
-    binp = vlib.cargo_build("abi")
+    binp = abi_build(tier, recs, None)
     sel = recs
     if replay:
         rec = json.load(open(replay))["record"]
@@ -811,6 +809,21 @@ def abiver_pipeline(tier, replay):
     res = sel + ".res"
     vlib.run_bin(binp, ["replay", sel, res])
     return r["stats"], sel, res
+
+def abi_build(tier, abiver_recs, ledger_recs):
+    """the generated ABI crate is built from the union of the AbiVer families and the Ledger revisions (whichever model
+    is not being checked contributes its last output, or is run now if it has none)"""
+    a = abiver_recs or os.path.join(WORK, "abiver_%s.ndjson" % tier)
+    l = ledger_recs or os.path.join(WORK, "ledger.ndjson")
+    if not os.path.exists(a):
+        r = vlib.run_tlc("AbiVer.tla", "AbiVer_%s.cfg" % tier, "abiver_" + tier, workers=8, timeout=3000)
+        vlib.printed_json(r["out"], a)
+    if not os.path.exists(l):
+        r = vlib.run_tlc("Ledger.tla", "Ledger.cfg", "ledger", workers=4, timeout=1200)
+        vlib.printed_json(r["out"], l)
+    p = subprocess_run([sys.executable, os.path.join(vlib.ROOT, "gen", "gen_abi.py"), os.path.join(HARNESS, "genabi"), a, l])
+    log("[gen] abi %s" % p)
+    return vlib.cargo_build("abi")
 
 def subprocess_run(cmd):
     import subprocess
@@ -918,3 +931,48 @@ def c11(p, tier, replay):
         "separately compiled peers are approximated by distinct type definitions in one build; a different compiler or -Zrandomize-layout build of the "
         "implementation is not exercised (the layout facts compared are those the running code itself records in its schemas)",
         "pointer kinds (Box, reference, slice) are transparent for the layout rule, as in the implementation: what is compared is the pointee"])
+
+
+# ------------------------------------------------------------------------------------------------
+# C15: the ABI compatibility ledger
+# ------------------------------------------------------------------------------------------------
+@prop("C15")
+def c15(p, tier, replay):
+    v = Verdict(p, tier)
+    recs = os.path.join(WORK, "ledger.ndjson")
+    r = vlib.run_tlc("Ledger.tla", "Ledger.cfg", "ledger", workers=4, timeout=1200, coverage=True)
+    if r["violated"]:
+        raise ToolError("Ledger: TLC reports a violation in the specification itself (see %s)" % r["out"])
+    zero = vlib.coverage_zero_actions(r["text"], ["StartRun", "Verify", "Create", "EndRun"])
+    if zero:
+        raise ToolError("Ledger: actions never taken: %s" % zero)
+    vlib.printed_json(r["out"], recs)
+    binp = abi_build(tier, None, recs)
+    sel = recs
+    if replay:
+        sel = os.path.join(WORK, "ledger_replay.ndjson")
+        open(sel, "w").write(json.dumps(json.load(open(replay))["record"]) + "\n")
+    res = sel + ".res"
+    vlib.run_bin(binp, ["ledger", sel, res])
+    records = open(sel).read().splitlines()
+    n, nontrivial, samples = 0, 0, []
+    for line in open(res):
+        rr = json.loads(line)
+        rec = json.loads(records[rr["i"]])
+        n += 1
+        if len(rec["runs"]) > 1:
+            nontrivial += 1
+        if len(samples) < 4 and len(rec["runs"]) == 3:
+            samples.append({"runs": rec["runs"], "results": rec["results"], "files": rec["files"]})
+        for f in rr["fails"]:
+            v.report(f["check"], {"t": None, "runs": rec["runs"]}, "history %s :: %s" % (rec["runs"], f["detail"]), rec)
+    cov = {"states": r["stats"]["distinct"], "transitions": r["stats"]["generated"], "traces_validated_against_impl": n,
+           "evaluations": n, "distinct_nontrivial": nontrivial,
+           "rule": "every chain of <= 3 runs over revisions related by identity, compatible evolution (new method, new versioned field, new enum variant, "
+                   "async interface) or a breaking change (method removed, argument count / argument type / return type changed, field added without a "
+                   "version); non-trivial = more than one run",
+           "samples": samples, "exhaustive": not replay,
+           "explanation": "TLC explores Ledger.tla (per-version Verify-or-Create over a directory) and proves FirstRunOk, SecondRunOk, CompatibleEvolutionOk and "
+                          "BreakingChangeRejected for every chain; each chain is replayed with generated revisions of one exported trait through the real "
+                          "savefile_abi::verify_compatiblity on a fresh directory, comparing Ok/Err of every run and the set of files left behind"}
+    return v.finish("model_checking", cov, ["bounded universe of 10 revisions and chains of <= 3 runs", "directories start empty; 'populated' is reached by earlier runs of the chain"])
